@@ -42,8 +42,22 @@ int O0_acf_vss_listener_main(int, char **);
 int O0_crf_talker_main(int, char **);
 int O0_crf_listener_main(int, char **);
 int O0_crf_listener_b_main(int, char **);
+// ... and compiled by gcc -O2 (COPY_PREFIX=G_)
+int G_acf_can_talker_main(int, char **);
+int G_acf_can_listener_main(int, char **);
+int G_cvf_talker_main(int, char **);
+int G_cvf_listener_main(int, char **);
+int G_aaf_talker_main(int, char **);
+int G_aaf_listener_main(int, char **);
+int G_hello_world_talker_main(int, char **);
+int G_hello_world_listener_main(int, char **);
+int G_acf_vss_talker_main(int, char **);
+int G_acf_vss_listener_main(int, char **);
+int G_crf_talker_main(int, char **);
+int G_crf_listener_main(int, char **);
+int G_crf_listener_b_main(int, char **);
 }
-#define PICK(f) (p.o0 ? O0_##f : f)
+#define PICK(f) (p.o0 == 2 ? G_##f : p.o0 ? O0_##f : f)
 
 namespace net {
 
@@ -101,7 +115,7 @@ Plan parse_plan(const std::string &text) {
             p.rseed = kv.u64("rseed", 1);
             p.skew[0] = kv.i64("skew0"); p.skew[1] = kv.i64("skew1"); p.skew[2] = kv.i64("skew2");
             p.stdin_eof = kv.u64("eof", 0);
-            p.o0 = kv.u64("o0", 0);
+            p.o0 = (int)kv.u64("o0", 0);
             p.ethpad = kv.u64("ethpad", 0);
             p.read0 = atof(kv.str("read0", "0").c_str());
             p.clkgran = kv.u64("clkgran", 1);
@@ -322,16 +336,21 @@ static FILE *g_real_stdout = nullptr;
 // ---------------------------------------------------------------- sancov edge callback: coverage + step budget
 }  // namespace net
 
+static void net_step(uint64_t pc);
 extern "C" void __sanitizer_cov_trace_pc_guard(uint32_t *guard) {
-    using namespace net;
     sim::cov_hit(*guard);
+    net_step((uint64_t)__builtin_return_address(0));
+}
+// (the copy compiled by gcc: basic-block callback without a guard; coverage is accounted on the clang copies)
+extern "C" void __sanitizer_cov_trace_pc(void) { net_step((uint64_t)__builtin_return_address(0)); }
+static void net_step(uint64_t pc) {
+    using namespace net;
     Node *np = g_handler_node;  // the running task's node while it is a listener inside a handler
     if (!np) return;
     Node &n = *np;
     World *w = g_world;
-    n.last_pc = (uint64_t)__builtin_return_address(0);
+    n.last_pc = pc;
     if (++n.handler_steps > w->step_budget) {
-        uint64_t pc = (uint64_t)__builtin_return_address(0);
         std::string fn = sim::g_symtab.func(pc);
         n.in_handler = false;
         if (g_rs->plan.prop == "C19") violation(strf("crash:step-budget:%s", fn.c_str()), strf("%s exceeded %llu basic blocks handling one datagram", n.name.c_str(), (unsigned long long)w->step_budget));
@@ -531,6 +550,8 @@ void exec_plan(const std::string &text, bool verbose) {
     stdout = so;
     stderr = se;
 
+    w.count(p.o0 == 2 ? "cfg.copy_gcc_O2" : p.o0 ? "cfg.copy_clang_O0_unsigned_char" : "cfg.copy_clang_O1");
+    if (p.env_on) w.count("cfg.environment_variables_read_as_set");
     if (p.stackfill != 0xA5) { sim::Tasks::refill_stacks((uint8_t)p.stackfill); w.count("cfg.stack_fill_other_than_A5"); }
     setup_nodes(rs);
     if (p.lstack >= 64 && p.lstack * 1024 < sim::Tasks::kStackSize && rs.listener >= 0) {
